@@ -93,9 +93,8 @@ pub fn op_pkt(p: &[u8]) -> String {
             _ => (false, false),
         }
     };
-    let acdbg = format!("{:?}", ac);
     format!(
-        "tei={} pusi={} prio={} pid={} scr={} scheme={} afc={} cc={} af={} pl={} aceq={} tsceq={} acdbg={}",
+        "tei={} pusi={} prio={} pid={} scr={} scheme={} afc={} cc={} af={} pl={} aceq={} tsceq={}",
         fb(pk.transport_error_indicator()),
         fb(pk.payload_unit_start_indicator()),
         fb(pk.transport_priority()),
@@ -107,8 +106,7 @@ pub fn op_pkt(p: &[u8]) -> String {
         af,
         pl,
         fb(aceq),
-        fb(tsceq),
-        acdbg
+        fb(tsceq)
     )
 }
 
@@ -286,13 +284,36 @@ pub fn f_parsed(c: &PesParsedContents<'_>, rest: &[u8]) -> String {
     let extn = match c.pes_extension() {
         Ok(e) => {
             let dbg = format!("{:?}", e);
-            let inner = dbg.split('[').nth(1).and_then(|s| s.split(']').next()).unwrap_or("");
-            let bytes: Vec<u8> = inner.split(',').filter_map(|x| x.trim().parse::<u8>().ok()).collect();
             let end = 3 + rest[2] as usize;
-            if bytes.len() <= end && end <= rest.len() && rest[end - bytes.len()..end] == bytes[..] {
-                format!("ok:{}+{}", end - bytes.len(), bytes.len())
-            } else {
-                format!("ok:elsewhere:{}", hex(&bytes))
+            // the derived Debug is `PesExtension { _buf: [a, b, ..] }`; if the formatting is ever
+            // changed (the source says "TODO manual Debug") the bytes can no longer be read back and
+            // the range is taken from the flags instead (Debug output is not part of any property)
+            let parsed: Option<Vec<u8>> = match (dbg.find('['), dbg.rfind(']')) {
+                (Some(a), Some(b)) if a < b && dbg.matches('[').count() == 1 => {
+                    let inner = dbg[a + 1..b].trim();
+                    if inner.is_empty() { Some(vec![]) } else { inner.split(',').map(|x| x.trim().parse::<u8>().ok()).collect() }
+                }
+                _ => None,
+            };
+            match parsed {
+                Some(bytes) => {
+                    if bytes.len() <= end && end <= rest.len() && rest[end - bytes.len()..end] == bytes[..] {
+                        format!("ok:{}+{}", end - bytes.len(), bytes.len())
+                    } else {
+                        format!("ok:elsewhere:{}", hex(&bytes))
+                    }
+                }
+                None => {
+                    let f = rest[1];
+                    let mut a = 3usize;
+                    a += match f >> 6 { 2 => 5, 3 => 10, _ => 0 };
+                    if f & 0x20 != 0 { a += 6 }
+                    if f & 0x10 != 0 { a += 3 }
+                    if f & 0x08 != 0 { a += 1 }
+                    if f & 0x04 != 0 { a += 1 }
+                    if f & 0x02 != 0 { a += 2 }
+                    format!("ok:{}+{}", a, end - a)
+                }
             }
         }
         Err(e) => f_pes_err(&e),
